@@ -26,7 +26,7 @@ def model_record_harnesses(tier, seed):
     from . import c17
     hs = []
     for h in c17.model_harnesses('quick', seed):
-        if h.params.get('scaling') and h.params['op'] in ('save_point_abs', 'save_point_rel', 'get_final_results', 'change_point', 'add_new_sample'):
+        if h.params.get('scaling') and h.params['op'] in ('save_point_abs', 'save_point_rel', 'get_final_results', 'change_point', 'add_new_sample', 'add_new_point'):
             h.home = 'C03'
             h.name = 'model:' + h.name
             hs.append(h)
